@@ -34,6 +34,13 @@ ENUM_TESTS = {
   },
 }
 
+ENUM_TESTS["connect_failed_frame"] = {
+  "file": "enum/connect_failed_frame.rs", "props": ["C17"], "pairs_fn": ["handle_connect_failed_event"], "unit": "connfail",
+  "append_to": "core/src/socket/core/command_processor.rs", "test_filter": "verif_enum_connect_failed",
+  "bound": "RECONNECT_IVL in {unset, 100 ms} x error in {fatal, retryable} x failed endpoint {unknown, backing off} x 0..=2 other endpoints with armed retries (24 cases)",
+  "what": "handle_connect_failed_event on a real SocketCore: every other endpoint's retry state is untouched, no entry dropped or invented, the failed endpoint's own retry armed iff the failure is retryable",
+}
+
 WITNESS_TESTS = {
   "c01_order_mixed_sizes": {
     "file": "witness/c01_order_mixed_sizes.rs", "props": ["C01"],
@@ -259,7 +266,7 @@ PROPS["C19"] = {
 }
 
 KANI["vk_plain_server_accepts_only_configured_credentials"] = {
-  "module": "core/src/security/plain.rs", "file": "kani/plain.rs", "props": ["C06"], "kind": "bounded",
+  "module": "core/src/security/plain.rs", "file": "kani/plain.rs", "props": ["C05", "C06"], "kind": "bounded",
   "bound": "expected credentials of 0..=1 byte each, token of at most 10 bytes, all symbolic", "timeout": 1500,
   "what": "PlainMechanism (server): a token is accepted only if it is a well-formed HELLO carrying exactly the configured credentials; a rejected peer cannot recover",
   "pairs_fn": ["PlainMechanism::process_token"],
@@ -270,7 +277,7 @@ KANI["vk_negotiate_only_enabled_mechanisms"] = {
           "(the contract the engine proof assumes for this function, minus the role clause, which is not observable through the trait object)",
   "pairs_fn": ["negotiate_security_mechanism"],
 }
-PROPS["C06"]["units"] = ["engine", "plain"]
+PROPS["C06"]["units"] = ["engine", "plain", "secopts"]
 PROPS["C06"]["kani_fallback"] = ["vk_plain_server_accepts_only_configured_credentials"]
 # vk_negotiate_only_enabled_mechanisms was tried as a thorough harness (2026-09-24): CBMC gives no verdict within 1500 s (fn-pointer table, Box<dyn Mechanism>,
 # PlainMechanism construction in the cone); it stays registered for replay only and is NOT part of any tier.
@@ -278,9 +285,11 @@ PROPS["C06"]["kani_thorough"] = ["vk_plain_server_accepts_only_configured_creden
 PROPS["C06"]["claim"] += (" For PLAIN the mechanism side of that contract is proved too (unit plain): the server reaches ServerSendWelcome/Ready only through a well-formed HELLO whose username AND password equal the configured ones "
                           "(no configured credentials => every HELLO is rejected), an error is terminal, Ready on the server is reachable only from ServerSendWelcome; "
                           "security::initialize_plain (region) hands a listener exactly the configured credentials -- an option that was never set stays 'no valid value', it is not the empty string -- and builds the mechanism in the role it was asked for.")
+PROPS["C06"]["claim"] += (" Option layer (unit secopts: the PLAIN_* and CURVE_* arms of apply_core_option_value as regions): setting any option of a mechanism selects that mechanism and never switches it off, whatever the value and the order; "
+                          "an unparsable value changes nothing; the other mechanism's options are untouched. (ZmtpEngineConfig::from, which copies `enabled` into use_plain/use_curve/security_enabled, is interleaved with #[cfg] blocks and is read, not extracted.)")
 PROPS["C06"]["level_note"] = ("Relative to the abstract Mechanism contract for CURVE/Noise (cryptography: not applicable) and to negotiate_security_mechanism's contract (assumed). "
                               "When the Verus route cannot decide after an edit (rewrite anchor lost / construct outside the subset), the bounded Kani harness on the real PLAIN mechanism runs as fallback (bounded, never counted as proved).")
-PROPS["C07"]["units"] = ["dec", "framer", "engine", "framebatch", "command", "plain", "greeting", "codec", "flags"]
+PROPS["C07"]["units"] = ["dec", "framer", "engine", "framebatch", "command", "plain", "greeting", "codec", "flags", "inprocrd"]
 PROPS["C03"]["units"] = ["dec", "enc", "framer", "c03lem", "codec"]
 PROPS["C04"]["units"] = ["engine", "framer", "c03lem", "dec", "codec", "hsout"]
 
@@ -305,21 +314,23 @@ PROPS["C13"] = {
   "assumptions": ["each LoadBalancer method holds its mutex from first to last statement (checked by reading: one lock() per method)"],
 }
 PROPS["C17"] = {
-  "units": ["backoff", "connecter"],
-  "kani_quick": [], "kani_thorough": [],
+  "units": ["backoff", "connecter", "connfail"],
+  "kani_quick": [], "kani_thorough": [], "enum_fallback": ["connect_failed_frame"],
   "claim": "Back-off arithmetic only, proved for ALL (attempts: u32, RECONNECT_IVL, RECONNECT_IVL_MAX) on the verbatim ReconnectState: the delay equals min(base * 2^min(attempts,31) saturating, max if set); "
            "the first delay is RECONNECT_IVL, consecutive delays never shrink and at most double (lemma_backoff_geometric), never exceed RECONNECT_IVL_MAX when set; attempts count up saturating, success resets; "
            "no overflow or panic for option values the parsers can produce (parse_reconnect_ivl{,_max}_option proved to yield at most i32::MAX ms). "
            "Failure locality of the retry sleep (TcpConnecter::wait_for_retry_delay_internal, select! desugared by R12): the connecter gives up only for the termination of its context, the closing of its OWN parent socket or a failed event bus; "
-           "an event that concerns another socket of the same context never ends the retry loop.",
+           "an event that concerns another socket of the same context never ends the retry loop. "
+           "The socket core's handling of a failed connection attempt (unit connfail: the whole handle_connect_failed_event) touches the retry state of the failed endpoint ONLY: every other endpoint's attempt count and armed retry time are exactly what they were, "
+           "no entry is dropped or invented; the failed endpoint's own back-off advances by on_connection_failure iff reconnecting is enabled and the error is not fatal.",
   "level_note": "Failure isolation across connections in the socket core's event handlers and 'traffic resumes once the peer is reachable' are fault-sequence/system properties: not covered; the zero-delay branch of the retry sleep is outside the contract (a zero RECONNECT_IVL cannot come out of the option parser). The call sites in async event handlers pass option values or small defaults (read, not under contract).",
   "technique": "contract-based deductive verification (Verus; durations as nanoseconds, nonlinear-arithmetic lemmas)",
   "trusted_base": ["prelude/time.rs: Duration/Instant as nanoseconds; saturating_mul clamps at Duration::MAX; Instant + Duration panics beyond the platform range (precondition)", "ASSUMPTION: the monotonic clock reads below half of its representable range"],
   "assumptions": ["machine arithmetic modelled exactly"],
 }
 PROPS["C05"] = {
-  "units": ["engine", "compat", "greeting"],
-  "kani_quick": [], "kani_thorough": [],
+  "units": ["engine", "compat", "greeting", "plain"],
+  "kani_quick": [], "kani_thorough": [], "kani_fallback": ["vk_plain_server_accepts_only_configured_credentials"],   # "wrong credentials: both ends fail"
   "claim": "Partial: (1) staged greeting on the verbatim process_greeting: our revision byte is sent as soon as the peer's 10-byte signature is seen and at most once, ZMTP/3 is committed as soon as the peer's revision byte is seen "
            "(no stage waits for more than the peer's previous stage: no mutual wait); (2) the inproc compatibility table equals the ZeroMQ pairing table outside a recorded gap of six pairs, the pairing table is symmetric; "
            "(2b) ZmtpGreeting::decode is total, consumes exactly 64 bytes and accepts exactly the well-formed greetings, encode produces one, encode_v3_tail/encode_signature produce the staged pieces (decode after encode returns version 3.0, the mechanism and the role); "
